@@ -23,6 +23,7 @@ EXPLANATION = ('R01.1 coefficient matrices == reference (linearity shown first);
 TECHNIQUE += '; readers of the Love-number buffer (.love, .k, .h, .l) evaluated on a buffer of distinct tokens'
 
 EXPLANATION += ' R01.19 the accessors .love / .k / .h / .l hand back, for every requested type, the three numbers the driver stored for that type.'
+EXPLANATION += ' R01.20 the boundary-condition table of the default request (solve_for=None) and of "tidal" hold the published surface values (C02\'s table rule carried over by alias); R01.17 also: no negation of an unsigned counter.'
 
 def run(chk):
     repo = Repo(chk.repo)
